@@ -16,7 +16,7 @@
 (*   wf  the address has the shape ip4/(udp[/quic-v1] | tcp[/ws])/p2p.     *)
 (* At most one entry per (k, a).                                           *)
 (*                                                                         *)
-(* The first part (pure operators and the clause operators C18_x) is used  *)
+(* The first part (pure operators and the C18 clause operators) is used    *)
 (* unchanged by MCBootCache (on model states) and by BootCacheTrace (on    *)
 (* states projected from the real BootstrapCacheStore).  The clause        *)
 (* operators are written from the statement of C18, not from the code.     *)
